@@ -88,20 +88,16 @@ theorem encEntries_length (es : List Nat) : (Spec.encEntries es).length = 4 * es
   | nil => rfl
   | cons e es ih => simp [Spec.encEntries, ih]; omega
 
-theorem readEntries_enc (es : List Nat) (hd rest : Bytes) (i : Nat) (hb : 4 + i * 4 = hd.length)
-    (hlt : ∀ e ∈ es, e < 256 ^ 4) :
-    readEntries (hd ++ (Spec.encEntries es ++ rest)) es.length i = .ok es := by
-  induction es generalizing hd i with
+theorem readEntries_enc (es : List Nat) (rest : Bytes) (hlt : ∀ e ∈ es, e < 256 ^ 4) :
+    readEntries es.length (Spec.encEntries es ++ rest) = .ok es := by
+  induction es with
   | nil => rfl
   | cons e es ih =>
-    have hlen := encEntries_length es
-    simp only [List.length_cons, readEntries, Spec.encEntries]
-    rw [uN_ok 4 _ (4 + i * 4) (by simp [le_length]; omega)]
-    simp only [ok_bind]
-    rw [hb, List.drop_left' rfl, List.append_assoc, rd_le 4 e _ (hlt e (by simp))]
-    have := ih (hd ++ le 4 e) (i + 1) (by simp [le_length]; omega) (fun x hx => hlt x (by simp [hx]))
-    rw [List.append_assoc] at this
-    rw [this]; rfl
+    simp only [List.length_cons, Spec.encEntries]
+    rw [readEntries_succ _ _ (by simp [le_length])]
+    simp only [List.append_assoc]
+    rw [rd_le 4 e _ (hlt e (by simp)), List.drop_left' (by simp [le_length])]
+    rw [ih (fun x hx => hlt x (by simp [hx]))]; rfl
 
 theorem mkEntry_lt (ty v : Nat) (f : Bool) (hv : v < 0x10000000) (ht : ty < 8) : Spec.mkEntry ty f v < 256 ^ 4 := by
   unfold Spec.mkEntry
@@ -126,24 +122,56 @@ theorem entriesOf_lt (idx total : Nat) (cs : List Child) (hsmall : total + (body
       · exact mkEntry_lt _ _ _ (by omega) (hty c (by simp))
     · exact ih (idx + 1) (total + c.2.length) (by omega) (fun x hx => hty x (by simp [hx])) e he
 
-/-- fix 08's check accepts what PostgreSQL writes -/
-theorem monotone_entriesOf (idx total : Nat) (cs : List Child) (hsmall : total + (bodyOf cs).length < 0x10000000)
-    (hty : ∀ c ∈ cs, c.1 < 8) : monotoneFrom total (entriesOf idx total cs) = true := by
+/-- the end offsets of the children `cs`, `total` data bytes being already emitted -/
+def endsOf (total : Nat) : List Child → List Nat
+  | [] => []
+  | c :: rest => (total + c.2.length) :: endsOf (total + c.2.length) rest
+
+theorem endsOf_length (total : Nat) (cs : List Child) : (endsOf total cs).length = cs.length := by
+  induction cs generalizing total with
+  | nil => rfl
+  | cons c rest ih => simp [endsOf, ih]
+
+theorem endsOf_append (total : Nat) (a b : List Child) :
+    endsOf total (a ++ b) = endsOf total a ++ endsOf (total + (bodyOf a).length) b := by
+  induction a generalizing total with
+  | nil => simp [endsOf, bodyOf]
+  | cons c rest ih =>
+    simp only [List.cons_append, endsOf, ih, bodyOf, List.length_append]
+    rw [show total + c.2.length + (bodyOf rest).length = total + (c.2.length + (bodyOf rest).length) by omega]
+
+/-- the end offset of the last child -/
+theorem getD_endsOf_last (total : Nat) (cs : List Child) (h : 0 < cs.length) :
+    (endsOf total cs).getD (cs.length - 1) 0 = total + (bodyOf cs).length := by
+  induction cs generalizing total with
+  | nil => simp at h
+  | cons c rest ih =>
+    cases rest with
+    | nil => simp [endsOf, bodyOf]
+    | cons c2 rest2 =>
+      have := ih (total + c.2.length) (by simp)
+      simp only [List.length_cons, Nat.add_sub_cancel] at this ⊢
+      simp only [endsOf, List.getD_cons_succ, bodyOf, List.length_append] at this ⊢
+      rw [this]; omega
+
+/-- the forward pass of fix 10 (which is also fix 08's check) accepts what PostgreSQL writes and finds
+the end offset of every child -/
+theorem endsFrom_entriesOf (idx total : Nat) (cs : List Child) (hsmall : total + (bodyOf cs).length < 0x10000000)
+    (hty : ∀ c ∈ cs, c.1 < 8) : endsFrom total (entriesOf idx total cs) = some (endsOf total cs) := by
   induction cs generalizing idx total with
   | nil => rfl
   | cons c rest ih =>
     simp only [bodyOf, List.length_append] at hsmall
     have ht := hty c (by simp)
     have ihr := ih (idx + 1) (total + c.2.length) (by omega) (fun x hx => hty x (by simp [hx]))
-    simp only [entriesOf, monotoneFrom, Spec.strideEntry]
+    simp only [entriesOf, endsFrom, endsOf, Spec.strideEntry]
     by_cases hs : (idx % 32 == 0) = true
     · rw [if_pos hs, jeHasOff_mk _ _ _ (by omega) ht, jeOffLen_mk _ _ _ (by omega)]
       simp only [Bool.not_true, Bool.false_eq_true, if_false]
-      rw [if_neg (by omega)]
-      exact ihr
+      rw [if_neg (by omega), ihr]; rfl
     · rw [if_neg hs, jeHasOff_mk _ _ _ (by omega) ht, jeOffLen_mk _ _ _ (by omega)]
       simp only [Bool.not_false, if_true]
-      exact ihr
+      rw [ihr]; rfl
 
 /-! ### the bytes of child `i` -/
 
@@ -172,29 +200,40 @@ theorem slice_child (hd : Bytes) (cs : List Child) (i : Nat) (h : i < cs.length)
 theorem getEntry_getD (es : List Nat) (i : Nat) (h : i < es.length) : getEntry es i = .ok (es.getD i 0) := by
   rw [getEntry_ok es i h]; simp [List.getD, List.getElem?_eq_getElem h]
 
-theorem parseArrayLoop_results (rec : Bytes → M JV) (data : Bytes) (es : List Nat) (dataStart : Nat)
-    (rs : List JV) (N : Nat) (hN : es.length = N) (hr : rs.length = N)
-    (hk : ∀ k, k < N → decodeJEntry rec data (dataStart + (entryOffLenPure es k 0).1) (entryOffLenPure es k 0).2
-      (es.getD k 0) = .ok (rs.getD k default))
-    (n i : Nat) (h : i + n = N) : parseArrayLoop rec data es dataStart n i = .ok (rs.drop i) := by
-  induction n generalizing i with
-  | zero =>
-    have : i = rs.length := by omega
-    subst this; simp [parseArrayLoop]
-  | succ n ih =>
-    unfold parseArrayLoop
-    rw [entryOffLen_ok es i 0 (by omega)]
-    simp only [ok_bind]
-    rw [getEntry_getD es i (by omega)]
-    simp only [ok_bind]
-    rw [hk i (by omega)]
-    simp only [ok_bind]
-    rw [ih (i + 1) (by omega)]
-    simp only [ok_bind, pure_eq_ok]
-    congr 1
-    have hi : i < rs.length := by omega
-    rw [List.drop_eq_getElem_cons hi]
-    simp [List.getD, List.getElem?_eq_getElem hi]
+theorem pre_cons_succ (x : Nat) (L : List Nat) (k : Nat) : pre (x :: L) (k + 1) = x + pre L k := by
+  simp [pre]
+
+/-- parseJSONBArray's loop over the entries and end offsets of the children `cs`, given what each
+child entry decodes to -/
+theorem parseArrayLoop_children (rec : Bytes → M JV) (data : Bytes) (dataStart : Nat) (cs : List Child)
+    (idx total : Nat) (rs : List JV) (hr : rs.length = cs.length)
+    (hk : ∀ k, k < cs.length →
+      decodeJEntry rec data (dataStart + (total + pre (lensOf cs) k)) ((lensOf cs).getD k 0 : Int)
+        ((entriesOf idx total cs).getD k 0) = .ok (rs.getD k default)) :
+    parseArrayLoop rec data data.length dataStart cs.length total (entriesOf idx total cs) (endsOf total cs) = .ok rs := by
+  induction cs generalizing idx total rs with
+  | nil =>
+    have : rs = [] := List.eq_nil_of_length_eq_zero (by simpa using hr)
+    subst this; exact parseArrayLoop_zero ..
+  | cons c rest ih =>
+    match rs, hr with
+    | r :: rs', hr =>
+      have h0 := hk 0 (by simp)
+      simp only [lensOf, List.map_cons, List.getD_cons_zero, entriesOf, pre, List.take_zero, List.sum_nil,
+        Nat.add_zero] at h0
+      simp only [List.length_cons, entriesOf, endsOf]
+      rw [parseArrayLoop_cons]
+      rw [show ((total + c.2.length : Nat) : Int) - (total : Int) = (c.2.length : Int) by omega, h0]
+      simp only [ok_bind]
+      rw [ih (idx + 1) (total + c.2.length) rs' (by simpa using hr) (fun k hk' => by
+        have := hk (k + 1) (by simpa using hk')
+        simp only [lensOf, List.map_cons, List.getD_cons_succ, entriesOf] at this
+        rw [pre_cons_succ] at this
+        simp only [lensOf]
+        rw [show total + c.2.length + pre (List.map (fun x => x.2.length) rest) k =
+          total + (c.2.length + pre (List.map (fun x => x.2.length) rest) k) by omega]
+        exact this)]
+      rfl
 
 /-! ### a whole array container -/
 
@@ -243,23 +282,23 @@ theorem arrBytes_length (cs : List Child) (sc : Bool) :
 def unwrapScalar (sc : Bool) (rs : List JV) : JV :=
   if sc then (match rs with | [x] => x | _ => .arr rs) else .arr rs
 
-/-- ParseJSONB's body, abstractly: header word `H` with the array flag and count `n`, entries `es`,
-loop result `rs` -/
-theorem parseContainer_array_abs (rec : Bytes → M JV) (data : Bytes) (H n : Nat) (es : List Nat) (rs : List JV) (sc : Bool)
+/-- ParseJSONB's body, abstractly: header word `H` with the array flag and count `n`, entries `es`, their
+end offsets `ends`, loop result `rs` -/
+theorem parseContainer_array_abs (rec : Bytes → M JV) (data : Bytes) (H n : Nat) (es ends : List Nat) (rs : List JV) (sc : Bool)
     (hl : 4 + n * 4 ≤ data.length) (hu : uN 4 data 0 = .ok H) (a2 : H &&& 0x0FFFFFFF = n)
     (a3 : (H &&& 0x20000000 != 0) = false) (a4 : (H &&& 0x40000000 != 0) = true) (a5 : (H &&& 0x10000000 != 0) = sc)
-    (h0 : 0 < n) (h1 : n ≤ 10000)
-    (hre : readEntries data n 0 = .ok es) (hm : monotoneFrom 0 es = true)
-    (hloop : parseArrayLoop rec data es (4 + n * 4) n 0 = .ok rs) :
+    (h0 : 0 < n)
+    (hre : readEntries n (data.drop 4) = .ok es) (hm : endsFrom 0 es = some ends)
+    (hloop : parseArrayLoop rec data data.length (4 + n * 4) n 0 es ends = .ok rs) :
     parseContainer rec data = .ok (unwrapScalar sc rs) := by
   unfold parseContainer
   have hl' : ¬ data.length < 4 := by omega
   simp only [hl', if_false, hu, ok_bind, a2, a3, a4, a5, pure_eq_ok]
-  have c1 : ((!false && !true) || decide (n > 10000)) = false := by simp; omega
+  have c1 : (!false && !true) = false := rfl
   have c2 : (n == 0) = false := by simp; omega
   simp only [c1, c2, Bool.false_eq_true, if_false]
-  rw [if_neg (by omega), hre]
-  simp only [ok_bind, hm, Bool.not_true, Bool.false_eq_true, if_false, hloop]
+  rw [if_neg (by omega), sliceFrom_ok data 4 (by omega)]
+  simp only [ok_bind, hre, hm, hloop]
   unfold unwrapScalar
   cases sc
   · rfl
@@ -270,67 +309,55 @@ theorem parseContainer_array_abs (rec : Bytes → M JV) (data : Bytes) (H n : Na
 
 /-- ParseJSONB's body on an array container, given what each child entry decodes to -/
 theorem parseContainer_array (rec : Bytes → M JV) (cs : List Child) (sc : Bool)
-    (h0 : 0 < cs.length) (h1 : cs.length ≤ 10000)
-    (hsmall : (bodyOf cs).length < 0x10000000) (hty : ∀ c ∈ cs, c.1 < 8) (rs : List JV) (hr : rs.length = cs.length)
+    (h0 : 0 < cs.length)
+    (hsmall : (arrBytes cs sc).length < 0x10000000) (hty : ∀ c ∈ cs, c.1 < 8) (rs : List JV) (hr : rs.length = cs.length)
     (hk : ∀ k, k < cs.length →
       decodeJEntry rec (arrBytes cs sc) (4 + cs.length * 4 + pre (lensOf cs) k) ((lensOf cs).getD k 0 : Int)
         ((entriesOf 0 0 cs).getD k 0) = .ok (rs.getD k default)) :
     parseContainer rec (arrBytes cs sc) = .ok (unwrapScalar sc rs) := by
-  obtain ⟨a1, a2, a3, a4, a5⟩ := arrHeader_fields cs.length sc (by omega)
   have hlen := arrBytes_length cs sc
+  -- the count fits the 28-bit field of the header because the whole container is below 2^28 bytes
+  obtain ⟨a1, a2, a3, a4, a5⟩ := arrHeader_fields cs.length sc (by omega)
   have hu : uN 4 (arrBytes cs sc) 0 = .ok (arrHeader cs.length sc) := by
     rw [uN_ok 4 _ 0 (by omega)]
     simp only [List.drop_zero, arrBytes]
     rw [rd_le 4 _ _ a1]
-  have hre : readEntries (arrBytes cs sc) cs.length 0 = .ok (entriesOf 0 0 cs) := by
-    have := readEntries_enc (entriesOf 0 0 cs) (le 4 (arrHeader cs.length sc)) (bodyOf cs) 0 (by simp [le_length])
-      (entriesOf_lt 0 0 cs (by omega) hty)
+  have hre : readEntries cs.length ((arrBytes cs sc).drop 4) = .ok (entriesOf 0 0 cs) := by
+    have := readEntries_enc (entriesOf 0 0 cs) (bodyOf cs) (entriesOf_lt 0 0 cs (by omega) hty)
     rw [entriesOf_length] at this
+    unfold arrBytes
+    rw [List.drop_left' (by simp [le_length])]
     exact this
-  have hm := monotone_entriesOf 0 0 cs (by omega) hty
-  have hsm : pre (lensOf cs) (lensOf cs).length < 0x10000000 := by
-    have := bodyOf_length cs
-    simp only [lensOf, List.length_map] at this ⊢
-    omega
-  have hty' : ∀ i, (tysOf cs).getD i 0 < 8 := by
-    intro i
-    by_cases hi : i < cs.length
-    · simp only [tysOf, List.getD, List.getElem?_map, List.getElem?_eq_getElem hi, Option.map_some, Option.getD_some]
-      exact hty _ (List.getElem_mem hi)
-    · simp [tysOf, List.getD, List.getElem?_eq_none (by simpa using hi)]
-  have hloop := parseArrayLoop_results rec (arrBytes cs sc) (entriesOf 0 0 cs) (4 + cs.length * 4) rs cs.length
-    (entriesOf_length 0 0 cs) hr (fun k hk' => by
-      rw [entriesOf_eq_encE cs, entryOffLenPure_encE (lensOf cs) (tysOf cs) stride hsm hty' k 0 (by simpa [lensOf] using hk')]
-      rw [← entriesOf_eq_encE cs]
-      simp only [Nat.zero_add]
-      exact hk k hk') cs.length 0 (by omega)
-  rw [List.drop_zero] at hloop
-  exact parseContainer_array_abs rec (arrBytes cs sc) (arrHeader cs.length sc) cs.length (entriesOf 0 0 cs) rs sc
-    (by omega) hu a2 a3 a4 a5 h0 h1 hre hm hloop
+  have hm := endsFrom_entriesOf 0 0 cs (by omega) hty
+  have hloop := parseArrayLoop_children rec (arrBytes cs sc) (4 + cs.length * 4) cs 0 0 rs hr (fun k hk' => by
+    simp only [Nat.zero_add]
+    exact hk k hk')
+  exact parseContainer_array_abs rec (arrBytes cs sc) (arrHeader cs.length sc) cs.length (entriesOf 0 0 cs)
+    (endsOf 0 cs) rs sc (by omega) hu a2 a3 a4 a5 h0 hre hm hloop
 
 /-! ### decodeJEntry by entry type -/
 
 theorem decodeJEntry_null (rec : Bytes → M JV) (data : Bytes) (off : Nat) (len : Int) (e : Nat)
     (he : e / 0x10000000 % 8 = 4) : decodeJEntry rec data off len e = .ok .nil := by
   have he' : e &&& 0x70000000 = 0x40000000 := by rw [land_70000000, he]
-  unfold decodeJEntry; simp [he']
+  unfold decodeJEntry decodeJEntryN; simp [he']
 
 theorem decodeJEntry_false (rec : Bytes → M JV) (data : Bytes) (off : Nat) (len : Int) (e : Nat)
     (he : e / 0x10000000 % 8 = 2) : decodeJEntry rec data off len e = .ok (.bool false) := by
   have he' : e &&& 0x70000000 = 0x20000000 := by rw [land_70000000, he]
-  unfold decodeJEntry; simp [he']
+  unfold decodeJEntry decodeJEntryN; simp [he']
 
 theorem decodeJEntry_true (rec : Bytes → M JV) (data : Bytes) (off : Nat) (len : Int) (e : Nat)
     (he : e / 0x10000000 % 8 = 3) : decodeJEntry rec data off len e = .ok (.bool true) := by
   have he' : e &&& 0x70000000 = 0x30000000 := by rw [land_70000000, he]
-  unfold decodeJEntry; simp [he']
+  unfold decodeJEntry decodeJEntryN; simp [he']
 
 theorem decodeJEntry_str (rec : Bytes → M JV) (data : Bytes) (off n : Nat) (e : Nat)
     (he0 : e / 0x10000000 % 8 = 0) (hb : off + n ≤ data.length) :
     decodeJEntry rec data off (n : Int) e = .ok (.str ((data.take (off + n)).drop off)) := by
   have he : e &&& 0x70000000 = 0 := by rw [land_70000000, he0]
-  unfold decodeJEntry
-  simp only [he, beq_self_eq_true, if_true, Int.toNat_natCast]
+  unfold decodeJEntry decodeJEntryN
+  simp only [sliceL_eq, he, beq_self_eq_true, if_true, Int.toNat_natCast]
   rw [if_pos ⟨by omega, hb⟩, slice_ok data off (off + n) hb (by omega)]
   rfl
 
@@ -347,8 +374,8 @@ theorem decodeJEntry_num (rec : Bytes → M JV) (data : Bytes) (pos off n : Nat)
       (decodeJNumeric ((data.take (off + n)).drop (off + Spec.padTo4 pos))).map JV.ofNum := by
   have he : e &&& 0x70000000 = 0x10000000 := by rw [land_70000000, he0]
   obtain ⟨h1, h2⟩ := align4_eq pos off hp
-  unfold decodeJEntry
-  simp only [he, Int.toNat_natCast, h1, show off + Spec.padTo4 pos - off = Spec.padTo4 pos by omega]
+  unfold decodeJEntry decodeJEntryN
+  simp only [sliceL_eq, he, Int.toNat_natCast, h1, show off + Spec.padTo4 pos - off = Spec.padTo4 pos by omega]
   have c0 : ((0x10000000 : Nat) == 0) = false := by decide
   simp only [c0, Bool.false_eq_true, if_false, beq_self_eq_true, if_true]
   rw [if_pos ⟨by omega, by omega⟩, slice_ok data _ _ (by omega) (by omega)]
@@ -361,8 +388,8 @@ theorem decodeJEntry_container (rec : Bytes → M JV) (data : Bytes) (pos off n 
     decodeJEntry rec data off (n : Int) e = rec ((data.take (off + n)).drop (off + Spec.padTo4 pos)) := by
   have he : e &&& 0x70000000 = 0x50000000 := by rw [land_70000000, he0]
   obtain ⟨h1, h2⟩ := align4_eq pos off hp
-  unfold decodeJEntry
-  simp only [he, Int.toNat_natCast, h1, show off + Spec.padTo4 pos - off = Spec.padTo4 pos by omega]
+  unfold decodeJEntry decodeJEntryN
+  simp only [sliceL_eq, he, Int.toNat_natCast, h1, show off + Spec.padTo4 pos - off = Spec.padTo4 pos by omega]
   have c0 : ((0x50000000 : Nat) == 0) = false := by decide
   have c1 : ((0x50000000 : Nat) == 0x10000000) = false := by decide
   simp only [c0, c1, Bool.false_eq_true, if_false, beq_self_eq_true, if_true]
@@ -419,15 +446,15 @@ theorem encValue_arr (pos : Nat) (xs : List Spec.Json) :
 /-! ### the documents covered by the round-trip theorem proved so far -/
 
 mutual
-/-- the documents of the round-trip theorem: numerics well-formed, no container beyond the
-implementation's limit of 10 000 elements / pairs, the keys of every object pairwise distinct -/
+/-- the documents of the round-trip theorem: numerics well-formed, the keys of every object pairwise
+distinct (no limit on the number of elements / pairs of a container) -/
 def covered : Spec.Json → Bool
   | .null => true
   | .bool _ => true
   | .num n _ => decide n.WF
   | .str _ => true
-  | .arr xs => decide (xs.length ≤ 10000) && coveredList xs
-  | .obj kvs => decide (kvs.length ≤ 10000) && decide ((kvs.map (·.1)).Nodup) && coveredKvs kvs
+  | .arr xs => coveredList xs
+  | .obj kvs => decide ((kvs.map (·.1)).Nodup) && coveredKvs kvs
 def coveredList : List Spec.Json → Bool
   | [] => true
   | x :: xs => covered x && coveredList xs
@@ -524,7 +551,7 @@ theorem parseContainer_empty_arr (rec : Bytes → M JV) (sc : Bool) :
 its data area) parses to the views of `xs`, given the induction hypothesis for the elements -/
 theorem parse_arrBytes (xs : List Spec.Json) (P : Nat) (sc : Bool) (f : Nat)
     (hP : P % 4 = (4 + 4 * xs.length) % 4) (ih : ∀ x ∈ xs, DecodesAs x) (hs : coveredList xs = true)
-    (h0 : 0 < xs.length) (h1 : xs.length ≤ 10000)
+    (h0 : 0 < xs.length)
     (hsmall : (arrBytes (childEncs P xs) sc).length < 0x10000000)
     (hf : (arrBytes (childEncs P xs) sc).length ≤ f) :
     ∃ rs, parseContainer (parseJSONBFuel f) (arrBytes (childEncs P xs) sc) = .ok (unwrapScalar sc rs) ∧
@@ -587,7 +614,7 @@ theorem parse_arrBytes (xs : List Spec.Json) (P : Nat) (sc : Bool) (f : Nat)
     · exact ⟨default, fun h => absurd h hk⟩
   obtain ⟨g, hg⟩ := Classical.axiomOfChoice hex
   refine ⟨(List.range xs.length).map g, ?_, by simp, ?_⟩
-  · apply parseContainer_array (parseJSONBFuel f) (childEncs P xs) sc (by omega) (by omega) (by omega) hty
+  · apply parseContainer_array (parseJSONBFuel f) (childEncs P xs) sc (by omega) hsmall hty
     · simp [hcl]
     · intro k hk
       have hk' : k < xs.length := by omega
